@@ -107,7 +107,20 @@ def parseGw (s : String) : Option (List (Nat × String)) :=
     | [k, ev] => if ev = "" then none else k.toNat?.map fun k => (k, ev)
     | _ => none
 
+/-- the values a mapper script writes BEFORE its first drop point: a point after which the context is certainly
+over (`x`, `uxb`) or `done` is certainly closed (its own cancel returned `c…`, another cancel returned `uce…`, the
+call returned `s`; a wait released by the return of the call is such a point too).  `guardedWriter.Write` must
+drop every later write. -/
+def liveWritesOf (raw : String) : List Nat :=
+  if raw = "-" then [] else
+  let toks := (raw.splitOn ".").takeWhile fun t =>
+    !(t = "x" || t = "s" || t = "uxb" || t.startsWith "uce" || t.startsWith "c")
+  toks.filterMap fun t => match t.toList with
+    | 'w' :: d => (String.ofList d).toNat?
+    | _ => none
+
 structure Run where
+  liveWrites : List (List Nat) := []
   api : String
   cfg : Cfg
   scripts : List (List UAct)
@@ -165,7 +178,7 @@ def parseRun (op : List String) : Option Run :=
     let waits := gw.map (fun p => s!"generator-on-{waitClass p.2}")
       ++ (parts.flatMap waitsOf).map (fun cl => s!"mapper-on-{cl}")
       ++ (waitsOf ((kv? kvs "r").getD "-")).map (fun cl => s!"reducer-on-{cl}")
-    pure { api := api, scripts := ms, waits := waits,
+    pure { api := api, scripts := ms, waits := waits, liveWrites := parts.map liveWritesOf,
            cfg := { n := n, workers := if lib then clampWorkers n else workersOf ws, gPanicAt := gp,
                     mscript := fun i => ms.getD i [], rscript := r,
                     ctxCan := ctx = "can", ctxPre := ctx = "pre", fixed := true } }
@@ -325,6 +338,11 @@ def runLine (r : Report) (sec : Nat) (l : Line) : Report := Id.run do
     r := r.violation sec l.idx s!"the call returned but the history has no return event op=[{opS}]"
   if ¬ (mapped.all (· < c.n)) ∨ ¬ (mapped.all fun i => mapped.count i = 1) then
     r := r.violation sec l.idx s!"an item was handed to the mapper more than once (or is unknown): mapped={showNats mapped} op=[{opS}]"
+  if ¬ isEachApi run.api ∧ subMultiset reduced (writesOfItems c mapped) ∧
+      ¬ subMultiset reduced (mapped.flatMap fun i => run.liveWrites.getD i []) then
+    r := r.violation sec l.idx s!"the reducer received a value whose Write began after the context was over / after a cancel had returned (guardedWriter.Write must drop it): reduced={showNats reduced} hist={histS} op=[{opS}]"
+  if run.liveWrites.any (fun lw => !lw.isEmpty) ∧ (run.scripts.zip run.liveWrites).any (fun p => (writesOf p.1).length > p.2.length) then
+    r := r.addCover "mapper-write-after-drop-point"
   if ¬ isEachApi run.api ∧ ¬ subMultiset reduced (writesOfItems c mapped) then
     r := r.violation sec l.idx s!"the reducer received a value more often than it was written: reduced={showNats reduced} op=[{opS}]"
   if isEachApi run.api ∧ (c.ctxCan ∨ c.ctxPre) then
